@@ -53,25 +53,25 @@ def numVal (digits : Str) (hex : Bool) : Option Nat :=
 def rePrefix : Re :=
   .cap 1 (.alt (.opt (Re.lit "fg_".toList)) (.alt (Re.lit "bg_".toList) (.alt (Re.lit "ul_".toList) (Re.lit "dul_".toList))))
 
-def reOpen : Re := .opt (.cls (fun c => c == '[' || c == '(' || c == ')'))
+def reOpen : Re := .opt (.cls (fun c => c == '[' || c == '('))
 def reClose : Re := .opt (.cls (fun c => c == ')' || c == ']'))
 def reWs : Re := .star Py.isSpace
 /-- `(0x)?([0-9a-fA-F]+)` with groups a, b -/
 def reNum (a b : Nat) : Re := .seq (.opt (.cap a (Re.lit "0x".toList))) (.cap b (Re.plus isHex))
 def reComma : Re := .cls (· == ',')
 
-/-- `^(prefix)rgb\([\[\()]?\s*N\s*,\s*N\s*,\s*N\s*[\)\]]?\)$` -/
+/-- `^(prefix)rgb\([\[\(]?\s*N\s*,\s*N\s*,\s*N\s*[\)\]]?\)$` -/
 def reRgb3 : Re :=
   .seq rePrefix (.seq (Re.lit "rgb(".toList) (.seq reOpen (.seq reWs (.seq (reNum 2 3) (.seq reWs (.seq reComma
   (.seq reWs (.seq (reNum 4 5) (.seq reWs (.seq reComma (.seq reWs (.seq (reNum 6 7) (.seq reWs (.seq reClose
   (.seq (Re.lit ")".toList) .eos)))))))))))))))
 
-/-- `^(prefix)rgb\([\[\()]?\s*N\s*[\)\]]?\)$` -/
+/-- `^(prefix)rgb\([\[\(]?\s*N\s*[\)\]]?\)$` -/
 def reRgb1 : Re :=
   .seq rePrefix (.seq (Re.lit "rgb(".toList) (.seq reOpen (.seq reWs (.seq (reNum 2 3) (.seq reWs (.seq reClose
   (.seq (Re.lit ")".toList) .eos)))))))
 
-/-- `^(prefix)colou?r256\([\[\()]?\s*N\s*[\)\]]?\)$` -/
+/-- `^(prefix)colou?r256\([\[\(]?\s*N\s*[\)\]]?\)$` -/
 def reColor : Re :=
   .seq rePrefix (.seq (Re.lit "colo".toList) (.seq (.opt (.cls (· == 'u'))) (.seq (Re.lit "r256(".toList)
   (.seq reOpen (.seq reWs (.seq (reNum 2 3) (.seq reWs (.seq reClose (.seq (Re.lit ")".toList) .eos)))))))))
